@@ -139,6 +139,14 @@ def gen_sets(rng, n):
             # still in fit_0.inversion's cache, then fit_0.inversion.curvature_reg_matrix evaluated for the first time
             b["fit1"] = rng.choice(["same", "data"]); b["setters"] = list(SETTERS); b["chain"] = []
             b["reads0"] = rng.choice([[], ["QCurv"], ["QDv", "QCurv"]]); b["reads0_after"] = rng.choice([["QCrm", "QCurv", "QRec"], list(STD)])
+        if i % 8 in (1, 4, 6) and i >= 8 and rng.random() < 0.7 or i in (1, 4):
+            # directed (defect f780999): the fits of the preload set-up use the MAPPING formalism (Preloads(use_w_tilde=False)), their
+            # function objects differ, so set_curvature_matrix stores the mapping class's mapper-diag blocks, which the W-TILDE
+            # inversions built afterwards consume; unregularized function lists before / after the mapper
+            b["use_w_tilde"] = True; b["pre_use_wt"] = False; b["fit1"] = "func"; b["setters"] = list(SETTERS); b["chain"] = []
+            for o in b["objs"]:
+                if o["k"] == "f": o["coef"] = None
+            b["eps"] = rng.choice([None, "1/4", "1/1024"])
         gen_env(rng, b, plain=0.6); b.pop("alias", None)
         yield b
 
@@ -574,13 +582,6 @@ def run_sets(inp):
     own0_coq = cstore(pre_own0, npix); own1_coq = cstore(aa.Preloads(use_w_tilde=pre_use_wt), npix)
     inv0 = aa.Inversion(dataset=ds, linear_obj_list=objs, settings=settings(), preloads=pre_own0)
     inv1 = aa.Inversion(dataset=ds1, linear_obj_list=objs1, settings=settings(), preloads=aa.Preloads(use_w_tilde=pre_use_wt))
-    def cmd_map(d_, o_):
-        """value / exception of the MAPPING class's _curvature_matrix_mapper_diag (a kernel of the model)"""
-        if wt0: return "(Raise OtherException)"
-        r = call_res(lambda: aa.Inversion(dataset=d_, linear_obj_list=o_, settings=settings.mk(),
-                                          preloads=aa.Preloads(use_w_tilde=pre_use_wt))._curvature_matrix_mapper_diag)
-        return "(Ok [])" if (r[0] == "ok" and r[1] is None) else cresq(r, qm)
-    cmdm0, cmdm1 = cmd_map(ds, objs), cmd_map(ds1, objs1)
     C = ds.convolver.convolve_mapping_matrix(mapping_matrix=np.eye(npix))
     orc = oracle_str(oracle_parts(aa, ds, objs, settings.mk, pre_use_wt), oracle_parts(aa, ds1, objs1, settings.mk, pre_use_wt))
     cin0 = cinput(aa, ds, objs, settings, inp, npix); cin1 = cinput(aa, ds1, objs1, settings, inp, npix)
@@ -595,10 +596,7 @@ def run_sets(inp):
         r = call_res(lambda: getattr(pre, name)(fit0, fit1))
         if r[0] != "ok":
             raised.append((name, r[1])); raised_idx.append((i_, r[1]))
-            # known, outside C15 (fixes/C15_set_curvature_matrix_alias.md): the MAPPING class's _curvature_matrix_mapper_diag indexes
-            # one mapper's matrix with the global no-regularization index list
-            if not (name == "set_curvature_matrix" and r[1] == "IndexError" and not wt0) and not why:
-                why = f"{name} raised {r[1]}"
+            if not why: why = f"{name} raised {r[1]}"
     filled = {s: getattr(pre, s) for s in SLOTS if getattr(pre, s) is not None}
     post_coq = cstore(pre, npix)
     # the fresh-value premise: every filled slot holds what a fresh inversion of fit_0's class computes
@@ -645,7 +643,7 @@ def run_sets(inp):
     CN = {"set_w_tilde_imaging": "SetWt", "set_operated_mapping_matrix_with_preloads": "SetOmm", "set_linear_func_inversion_dicts": "SetLf",
           "set_curvature_matrix": "SetCurv", "set_regularization_matrix_and_term": "SetReg"}
     rz = {i for i, _ in raised_idx}
-    coq = (f"(KSet {qm(C)} {orc} {cin0} {own0_coq} {cmdm0} {clist(inp['reads0'])} {cin1} {own1_coq} {cmdm1} "
+    coq = (f"(KSet {qm(C)} {orc} {cin0} {own0_coq} {clist(inp['reads0'])} {cin1} {own1_coq} "
            f"{clist([CN[n_] for n_ in inp['setters']])} {clist([cbool(i in rz) for i in range(len(inp['setters']))])} {post_coq} {fresh_coq} "
            f"{cbool(dvm_loose)} {clist(inp['reads0_after'])} {couts(after0)} {couts(fresh_after0)})")
     # the history of inversions that use the Preloads object filled by set_*: an ordinary KHist case
